@@ -111,6 +111,12 @@ func (f *File) syncWithoutLocking() error {
 	}
 
 	if f.writeBuf != nil {
+		// Writing continues where it was once the content has been flushed
+		position, err := f.writeBuf.Seek(0, io.SeekCurrent)
+		if err != nil {
+			return err
+		}
+
 		// The attributes of the entry may have been changed through the filesystem since this handle was opened (`Chmod`,
 		// `Chown`, `Chtimes`); writing the content must not take them back to what they were at open
 		if current, err := inventory.Stat(
@@ -182,7 +188,9 @@ func (f *File) syncWithoutLocking() error {
 							return nil, err
 						}
 
-						return f.writeBuf, nil
+						// `Update` closes what it is handed; the buffer is closed together with the handle instead, it has to
+						// outlive a `Sync`
+						return keepOpen{f.writeBuf}, nil
 					},
 					Info: hdr.FileInfo(),
 					Path: f.path,
@@ -195,8 +203,21 @@ func (f *File) syncWithoutLocking() error {
 		); err != nil {
 			return err
 		}
+
+		if _, err := f.writeBuf.Seek(position, io.SeekStart); err != nil {
+			return err
+		}
 	}
 
+	return nil
+}
+
+// keepOpen is a source whose `Close` leaves the underlying buffer open
+type keepOpen struct {
+	io.ReadSeeker
+}
+
+func (keepOpen) Close() error {
 	return nil
 }
 
@@ -218,8 +239,11 @@ func (f *File) closeWithoutLocking() error {
 	}
 
 	if f.writeBuf != nil {
-		// No need to close write buffer, the `update` operation closes it itself
 		if err := f.syncWithoutLocking(); err != nil {
+			return err
+		}
+
+		if err := f.writeBuf.Close(); err != nil {
 			return err
 		}
 
